@@ -143,7 +143,10 @@ def ranged_names(expr):
 
 REGEXES = ["", "^", "$", "^$", ".*", "()", "x*", "a*", ".", "^foo", "1$", "^foo1$", "foo1|bar", "^(foo1|bar)$", "[0-9]+$",
            "^[^0-9]*$", "FOO", "o{2}", "\\.", "-", "^.{4}$", "(^b|0$)", "[[:digit:]]", "^foo[1-3]$", "foo1", "^bar", "r$",
-           "[[:upper:]]", "(foo|Foo)1$", "^(.*)$", "oo1?$", "o+[0-9]", "^$|1", "b[^a]", "/", "a/"]
+           "[[:upper:]]", "(foo|Foo)1$", "^(.*)$", "oo1?$", "o+[0-9]", "^$|1", "b[^a]", "/", "a/",
+           # long patterns (a fixed-size copy of the pattern would cut them)
+           "^(nosuch1|nosuch2|nosuch3|nosuch4|nosuch5|nosuch6|foo1|bar)$",
+           "^(" + "|".join("absent%03d" % k for k in range(60)) + "|foo2|a\\.b)$"]
 
 
 def xfile_names(target_len):
@@ -335,6 +338,22 @@ def systematic(Case, cwd, thorough=False):
         c = mk.add("size", [("tgt", "keep1,%s,%s,h9x,%s" % (names[0], names[len(names) // 2], names[-1])), ("xfile", f)],
                    "sep" if ln % 2 else "dash", files={f: lines}, note="xfile-len=%d" % ln)
         c.tags.add("xfile-len=%d" % ln)
+    # ONE long bracket group: many non-contiguous numbers under one prefix (the ranged form `n[1001,1003,...]` is a
+    # single group of 1.5 KB / 5 KB: longer than hostlist.c's per-group buffers, the longer one longer than the first
+    # buffer of list_push_hostlist) — as an exclusion file, as a literal -x word, as a target file
+    for cnt in (300, 1000):
+        odd = ["n%d" % v for v in range(1001, 1001 + 2 * cnt, 2)]
+        tg = "keep1,n[1000-1010],n%d,n%d,n%d" % (1001 + 2 * (cnt // 2), 1001 + 2 * cnt - 2, 1001 + 2 * cnt)
+        f = mk.fname("x")
+        mk.add("size", [("tgt", tg), ("xfile", f)], "sep", files={f: odd}, note="long-group-%d" % cnt)
+        f = mk.fname("x")
+        mk.add("size", [("xfile", f), ("tgt", tg)], "dash", files={f: [",".join(odd[i:i + 50]) for i in range(0, cnt, 50)]},
+               note="long-group-%d" % cnt)
+        word = "n[%s]" % ",".join(str(v) for v in range(1001, 1001 + 2 * cnt, 2))
+        mk.add("size", [("tgt", tg), ("xcl", word)], "sep", note="long-group-%d" % cnt)
+        f = mk.fname("t")
+        mk.add("size", [("tfile", f), ("xcl", "n[1001-1100]"), ("keep", "[19]$")], "sep", files={f: [word, "keep1"]},
+               note="long-group-%d" % cnt)
     # a long -x list (one word that names thousands of hosts; a list of hundreds of words)
     mk.add("size", [("tgt", "n[1-40],m1,n[20-60]"), ("xcl", "n[2-3000]")], "sep", note="long-range")
     mk.add("size", [("tgt", "n[1-40],m1,n[20-60]"), ("xcl", ",".join("n%d" % v for v in range(2, 400, 2)))], "sep",
